@@ -201,18 +201,19 @@ func (l *parentedLoader) Parent() px.Loader {
 func (l *typeSetLoader) Discover(c px.Context, predicate func(tn px.TypedName) bool) []px.TypedName {
 	found := make([]px.TypedName, 0)
 	ts := l.typeSet.Types()
+	inSet := make(map[string]bool, ts.Len())
 	ts.EachKey(func(v px.Value) {
-		tn := v.(px.TypedName)
+		// the keys of Types() are the simple type names (strings)
+		tn := px.NewTypedName2(px.NsType, v.String(), l.typeSet.NameAuthority())
+		inSet[tn.MapKey()] = true
 		if predicate(tn) {
 			found = append(found, tn)
 		}
 	})
 
-	pf := l.parentedLoader.Discover(c, func(tn px.TypedName) bool { return !ts.IncludesKey(tn) && predicate(tn) })
-	if len(pf) > 0 {
-		found = append(found, pf...)
-		sort.Slice(found, func(i, j int) bool { return found[i].MapKey() < found[j].MapKey() })
-	}
+	pf := l.parentedLoader.Discover(c, func(tn px.TypedName) bool { return !inSet[tn.MapKey()] && predicate(tn) })
+	found = append(found, pf...)
+	sort.Slice(found, func(i, j int) bool { return found[i].MapKey() < found[j].MapKey() })
 	return found
 }
 
